@@ -1,0 +1,25 @@
+//go:build verif
+// +build verif
+
+// verif hooks for property C15 (add-only, compiled only with -tags verif): reload function and handler.
+
+package mod_tag
+
+import (
+	"net/url"
+)
+
+import (
+	"github.com/bfenetworks/bfe/bfe_basic"
+)
+
+func (m *ModuleTag) VerifC15Reload(path string) error {
+	q := url.Values{}
+	q.Set("path", path)
+	_, err := m.loadRuleData(q)
+	return err
+}
+
+func (m *ModuleTag) VerifC15Handle(req *bfe_basic.Request) {
+	m.tagHandler(req)
+}
